@@ -179,7 +179,13 @@ def read_records(data, budget=True):
     ReadBudgetExceeded are caught.
     """
     ns = load()
-    stream = BudgetedStream(data) if budget else io.BytesIO(data)
+    if budget:
+        stream = BudgetedStream(data)
+    else:
+        # a stream whose position is not always 0 when the reader gets it
+        # (0, 1 or 2 bytes of an envelope the caller consumed already)
+        stream = open_stream(data, ('offset', len(data) % 3))
+
     records = []
 
     try:
@@ -199,20 +205,39 @@ OTHER_FILE = (b'#diffx: encoding=utf-8, version=1.0\n#.preamble: length=6\n'
               b'#...diff: length=3\nab\n')
 
 
+def _companion_records(ns, other):
+    return [dict(r) for r in ns.DiffXReader(io.BytesIO(other))]
+
+
+class CompanionDisturbed(Exception):
+    """The companion reader, fine on its own, went wrong next to ours."""
+
+
 def read_records_lockstep(data, other=OTHER_FILE, abandon_first=True):
     """Like read_records(data, budget=False), but in the company of other
     readers: one abandoned after two records, one advanced alternately
-    with ours (over ``other``, which must be readable)."""
+    with ours (over ``other``, which must be readable on its own).
+
+    Returns (records, exception or None); a companion that raises or
+    yields other records than on its own gives CompanionDisturbed."""
     ns = load()
 
+    try:
+        solo = _companion_records(ns, other)
+    except Exception as e:
+        raise HarnessError('the companion file is not readable: %r' % e)
+
     if abandon_first:
-        it = iter(ns.DiffXReader(io.BytesIO(other)))
-        next(it)
-        next(it)
+        try:
+            it = iter(ns.DiffXReader(io.BytesIO(other)))
+            next(it)
+            next(it)
+        except Exception as e:
+            return [], CompanionDisturbed('abandoned reader: %r' % e)
 
     mine = iter(ns.DiffXReader(io.BytesIO(data)))
     theirs = iter(ns.DiffXReader(io.BytesIO(other)))
-    n_other = 0
+    seen = []
     records = []
 
     while True:
@@ -224,12 +249,20 @@ def read_records_lockstep(data, other=OTHER_FILE, abandon_first=True):
             return records, e
 
         try:
-            next(theirs)
-            n_other += 1
+            seen.append(dict(next(theirs)))
         except StopIteration:
+            if seen != solo:
+                return records, CompanionDisturbed(
+                    'companion records %r' % [r.get('section') for r in seen])
+
             theirs = iter(ns.DiffXReader(io.BytesIO(other)))
+            seen = []
         except Exception as e:
-            raise HarnessError('the companion file is not readable: %r' % e)
+            return records, CompanionDisturbed('%r' % e)
+
+    if seen != solo[:len(seen)]:
+        return records, CompanionDisturbed(
+            'companion records %r' % [r.get('section') for r in seen])
 
     return records, None
 
